@@ -688,7 +688,9 @@ func (fr *Frame) applyContract(site ssa.Instruction, k *FuncContract, ce callee,
 		env.applyGhostSet(gs, st)
 	}
 	for _, en := range k.Ensures {
-		if en.OnPanic && false {
+		if en.OnlyPanic {
+			// about the callee's recovered exit only: nothing is known here (the caller
+			// cannot tell which exit was taken)
 			continue
 		}
 		vc.assume(*reach, env.evalBool(en.E))
